@@ -11,6 +11,9 @@ NOTE_S = ("Trusted base: the vrewrite source rewriter and the vz shim packages (
 NOTE_E = ("Engine E runs the unmodified mangos code under the real Go scheduler and real OS transports: inputs, configurations and operation lists are enumerated exhaustively over the stated finite sets, goroutine schedules and kernel segmentation are not controlled; hang verdicts use generous watchdogs; the harness codecs/reference decoders are trusted.")
 
 claimed = {
+ "C02": ("stateless model checking of the rewritten real code: deviation-bounded exploration of all schedules of concurrent senders/receivers over inproc and the virtual transport for every queue-length setting, plus exhaustive connect/drop/take/send histories",
+         "PAIR/XPAIR/PAIR1 with two concurrent senders and a receiver over inproc, PAIR under manual back-pressure, PUSH/XPUSH with two or three peers that take one message at a time, PULL/XPULL with two pushers: all schedules within the deviation bound for queue lengths {128,0,1,2}; oracle: permutation of what was sent, each sender's/connection's order kept, no duplicate, no invention, every Send returns while a peer takes; PAIR second-peer refusal and re-acceptance after loss as event histories.",
+         "DESIGN.md §6 C02"),
  # id: (technique, text, design_ref, engines)
  "C03": ("stateless model checking of the rewritten real code: exhaustive event-history enumeration (depth-bounded) against a reference REQ model + deviation-bounded schedule exploration",
          "Every history of Send/Recv/Close/reply-arrival events up to the stated depth on 2 contexts and 2 connections is executed on the real req implementation under the controlled scheduler and compared step by step with a reference model; concurrent Send/Recv/reply scenarios are explored over all schedules up to the deviation bound.",
